@@ -23,6 +23,10 @@ CLAIMS = {
   "Deductive: (a) GOLoop.setup_bounds is a closed function: it is executed and every entry of the resulting built-in table becomes z3 obligations for all start<=stop (entry grammar '{start|stop}[+-k]', region within the depth-1 halo, non-empty, all-points region contains the internal region); (b) the real bodies of GOLoop.get_custom_bound_string, lower_bound and upper_bound are verified by VC generation: the custom bound is exactly the table entry of the loop's (offset, field space, iteration space, loop type, side) with {stop} replaced by the x extent for inner and the y extent for outer loops, taken from the first r2d_field argument; internal/all-points loops take the internal/whole grid property of their loop type and side.",
   "Trusted/assumed: pyvc, z3; Config/ancestor/symbol-table accessors as engine hooks; str.format/lower uninterpreted. NOT covered: agreement of the table with the dl_esm_inf run-time regions (library absent from this checkout), hence region equality with and without constant loop bounds; GOConstLoopBoundsTrans.apply, add_bounds and the transformations that must keep the region are not under contract (seeded change C25b is missed for this reason).",
   TECH + "; executed closed table + z3 obligations over all grid sizes"),
+ "C23": ("proof",
+  "Deductive: PSyLoop.has_inc_arg (nested loops, invariants) returns exactly 'some kernel argument has increment or read-then-increment access'; DynamoOMPParallelLoopTrans.validate and Dynamo0p3OMPLoopTrans.validate return normally only for a loop over a single colour, or without such an argument (or on a discontinuous space for the former); LFRicLoop.independent_iterations (consulted by the generic OpenMP/OpenACC loop transformations) never reports a 'colours' loop independent and reports a loop over all cells independent only without such an argument unless the generic analysis proved independence; Dynamo0p3ColourTrans.apply refuses inside an OpenMP directive, for non-cell loops and discontinuous spaces. One defect was repaired (fix: 01cd2b8, READINC ignored), one is a recorded known finding (colouring accepted inside an OpenACC parallel region).",
+  "Assumed: accessor properties and tree queries (coded_kernels, ancestor, arguments, access, loop_type, field_space) as engine hooks returning stored attributes; base-class validate/apply may raise or return. NOT under contract: ParallelLoopTrans.validate's refusal of 'colours' loops, ParallelRegionTrans.validate, the OpenACC transformations' own bodies and the induction over transformation sequences.",
+  TECH + "; reachability (cover) checks against vacuity"),
 }
 
 NA = {
